@@ -581,7 +581,7 @@ def plan(tier: str, usable: Sequence[str], col: common.Collector) -> List[PertSi
     _prep()
     r = random.Random(common.seed() * 7919 + 11)
     # instances per (class, field): [(source, path, kind, non_default)]
-    inst: Dict[Tuple[str, str], List[Tuple[str, Tuple[Any, ...], str, bool]]] = {}
+    inst: Dict[Tuple[str, str], List[Tuple[str, Tuple[Any, ...], str, Any]]] = {}
     populated: set = set()
     seen_classes: set = set()
     dropped: set = set()
@@ -607,8 +607,13 @@ def plan(tier: str, usable: Sequence[str], col: common.Collector) -> List[PertSi
                     alive = False
                 for fname, kind in H.perturbable_fields(o):
                     if alive:
-                        inst.setdefault((cn, fname), []).append(
-                            (name, path, kind, getattr(o, fname) is not None))
+                        cur = getattr(o, fname)
+                        # True: present; for strings additionally "text" if it is not a number
+                        flavour: Any = cur is not None
+                        if isinstance(cur, str) and not (H._INT_RE.match(cur) or
+                                                         H._FLOAT_RE.match(cur)):
+                            flavour = "text"
+                        inst.setdefault((cn, fname), []).append((name, path, kind, flavour))
                     else:
                         dropped.add((cn, fname))
 
@@ -670,7 +675,7 @@ def plan(tier: str, usable: Sequence[str], col: common.Collector) -> List[PertSi
         main = [c for c in cands if c[0] in MAIN_SOURCES] or cands
         present = [c for c in main if c[3]]
         absent = [c for c in main if not c[3]]
-        picks: List[Tuple[str, Tuple[Any, ...], str, bool]] = []
+        picks: List[Tuple[str, Tuple[Any, ...], str, Any]] = []
         if present:
             picks.append(r.choice(present))
         if absent and (len(picks) < per_pair):
@@ -681,6 +686,7 @@ def plan(tier: str, usable: Sequence[str], col: common.Collector) -> List[PertSi
                 picks.append(c)
         others = [c for c in cands if c not in picks]
         r.shuffle(others)
+        others.sort(key=lambda c: 0 if c[3] == "text" else 1)  # stable: free text sites first
         # alternatives: instances with a different current value first (other value domains)
         alts = [(n2, p2, pr[0], pr[1], k2) for n2, p2, k2, _ in others[:12]]
         for k, (name, path, kind, _) in enumerate(picks[:per_pair]):
